@@ -11,6 +11,7 @@ import run_loc  # runners for C15 / C16 (C driver against libkodama.a, both prof
 TRUSTED_COMMON = [
     "Lean 4.33.0 kernel; axioms limited to propext, Classical.choice, Quot.sound (audited with #print axioms on every property theorem; no sorry/admit/native_decide/bv_decide/axiom in the import closure)",
     "translator /verif/tools/extract.py: the Lean text it emits for method.rs / condensed.rs / lib.rs tables / reset bodies / capi / headers / Go means what the source fragment means",
+    "source fingerprints (tools/extract_bodies.py -> Generated/Bodies.lean, Props/C*Source.lean): a textual tie - the normalised body of every hand-modelled function is pinned by a theorem; it says the text is the one the model was written against, not that the model is right about it",
     "correspondence check (/verif/harness + lean driver): differential testing of the hand-modelled loops and bookkeeping against the real crate, bit patterns compared; bounded by the generated inputs reported here",
     "theorems are over an abstract number type with the laws named in their hypotheses; that non-NaN IEEE floats in the safe magnitude range satisfy those laws is trusted — and TESTED on every run: the executable kodama-laws (lean/Kodama/LawsSample.lean) evaluates every float-facing law-bundle field on grids of ~400 Float and Float32 values (special values, 1-3 ulp neighbours, magnitudes) and a law expected to hold that fails there is reported like a broken obligation (coverage.float_law_samples)",
     "modelled, not verified: slice::sort_by is a stable sort. (find(): the theorems use a model without path compression; Props/C01Compress.lean proves that the faithful compressing model Model/UnionFindC.lean yields the same dendrogram, and the faithful model's parents array is compared with the real LinkageUnionFind after every operation in the uf unit session)",
